@@ -4,14 +4,38 @@
 Two kinds of output, all under lean/SparseV/Generated/:
 
 * Function fragments (integer-only code: slice normalisation, axis normalisation, the broadcasting
-  rule, DOK's slice bounds, `eye`'s length arithmetic, ...).  A fragment descriptor (TARGETS below)
-  names the function, selects the branch, and maps Python expressions to Lean parameters.
-  Statements are translated by continuation duplication (`if` copies the rest of the block into
-  both branches), `x is None` tests become `match`, `raise X` becomes `.error <class of X>`.
+  rule, DOK's slice bounds, `eye`'s length arithmetic, ...).  A fragment descriptor (tools/py2lean_targets.py,
+  tools/targets.d/*.py) names the function, selects the branch, and maps Python expressions to Lean parameters.
   Anything outside the subset makes the translator REFUSE that target (listed in "refused");
   it never guesses and never emits a partial definition.
 * Tables read off the source (dispatch wrappers, fill-value guards, npz members, constructor
   promise sites, in-place sites).  See tools/py2lean_tables.py.
+
+How a fragment is translated (three steps, all of them meaning-preserving on the subset):
+
+1. TRANSLATE to a small term language.  Statements by continuation duplication (`if` copies the rest of the
+   block into both arms); local assignments are SUBSTITUTED (no `let` survives, so the names of locals, the order of
+   independent statements and the presence of temporaries leave no trace); `x is None` on a possibly-None value splits on
+   the parameter it comes from (flow typing); `raise X` becomes `.error <class of X>`; truthiness of ints as Python
+   evaluates it (`0` is falsy).
+2. NORMALISE.  Conditional expressions are lifted out of arithmetic, tuples and comparisons; every test is decomposed
+   into ATOMS in one fixed polarity — `a < b`, `a = b` (operands ordered), `b = true`, `p is None` — with
+   `a <= b` read as `not b < a`, `a != b` as `not a = b`, chained comparisons, `not`, `and`, `or` as the propositional
+   structure over those atoms; the definition is then rebuilt as ONE decision tree that tests the atoms in a fixed global
+   order (parameters that may be None first, in parameter order; then the other atoms by their text), dropping a test
+   whose two arms are equal.  Operands of `+`, `*`, `min`, `max` are ordered.  The result is a canonical form modulo the
+   propositional structure of the code: reordering conjuncts/disjuncts, De Morgan, `if/else` exchanged under the negated
+   test, `elif` against nested `if`, a conditional expression against an `if` statement, early return against `else`,
+   flipped comparisons, commuted operands — all give the same text, character by character.  What is NOT identified:
+   anything that needs arithmetic (`-d - 1` against `-(d + 1)`, `min(a, b)` against an `if a > b` clamp, two exclusive
+   tests exchanged): those reach the theorems as a different term with the same meaning, and the interface lemmas
+   (the few lemmas that unfold `Gen.*`) are proved by case analysis + `omega`, not by rewriting a shape.
+3. PRINT as nested `if … then … else` / `match … with | none | some`.
+
+Where text is compared with the source (the guard that selects a branch, the expressions a descriptor maps to a
+parameter), both sides go through `ckey`: comparison operands mirrored into one orientation, `and`/`or` operands
+ordered, `not` pushed through `==`/`is`/`in` and `and`/`or`, comprehension variables renamed positionally.  These are
+equivalences of Python itself (for any operand types), so an anchor that still matches still means the same.
 
 Prints one JSON line: {"functions": [...], "refused": [...], "changed": [...]}.
 """
@@ -19,6 +43,7 @@ from __future__ import annotations
 
 import argparse
 import ast
+import copy
 import json
 import sys
 from pathlib import Path
@@ -35,324 +60,889 @@ ERRCLASS = {
     "NotImplementedError": "notImplemented", "OverflowError": "overflow", "AssertionError": "internal",
 }
 
-INT, OPT, BOOL, NONE = "Int", "Option Int", "Bool", "None"
+INT, OPT, BOOL, NONE, STR, T3, PROP = "Int", "Option Int", "Bool", "None", "Str", "slice3", "Prop"
+
+# ==================================================================================================
+# canonical keys for source text (anchors, `bind`, `consts`)
+# ==================================================================================================
+
+_MIRROR = {ast.Gt: ast.Lt, ast.GtE: ast.LtE}
+_NEGATE_ANY = {ast.Eq: ast.NotEq, ast.NotEq: ast.Eq, ast.Is: ast.IsNot, ast.IsNot: ast.Is, ast.In: ast.NotIn, ast.NotIn: ast.In}
+_NEGATE_INT = {ast.Lt: ast.GtE, ast.GtE: ast.Lt, ast.Gt: ast.LtE, ast.LtE: ast.Gt}
+
+
+class _Canon(ast.NodeTransformer):
+    """equivalences of Python itself; with ints=True also `not a < b` == `a >= b` (used to LOCATE integer tests only)"""
+
+    def __init__(self, ints=False):
+        self.ints = ints
+        self.n = 0
+
+    def _comp(self, node):
+        ren = {}
+        for g in node.generators:
+            for t in ast.walk(g.target):
+                if isinstance(t, ast.Name) and t.id not in ren:
+                    ren[t.id] = f"_c{self.n}"
+                    self.n += 1
+        if ren:
+            class R(ast.NodeTransformer):
+                def visit_Name(s, n):
+                    return ast.copy_location(ast.Name(id=ren.get(n.id, n.id), ctx=n.ctx), n)
+            node = R().visit(node)
+        return self.generic_visit(node)
+
+    visit_GeneratorExp = visit_ListComp = visit_SetComp = _comp
+
+    def neg(self, node):
+        """canonical form of `not node`"""
+        if isinstance(node, ast.UnaryOp) and isinstance(node.op, ast.Not):
+            return self.visit(node.operand)
+        if isinstance(node, ast.BoolOp):
+            op = ast.Or() if isinstance(node.op, ast.And) else ast.And()
+            return self.visit(ast.BoolOp(op=op, values=[ast.UnaryOp(op=ast.Not(), operand=v) for v in node.values]))
+        if isinstance(node, ast.Compare) and len(node.ops) == 1:
+            t = type(node.ops[0])
+            flip = _NEGATE_ANY.get(t) or (_NEGATE_INT.get(t) if self.ints else None)
+            if flip:
+                return self.visit(ast.Compare(left=node.left, ops=[flip()], comparators=node.comparators))
+        return ast.UnaryOp(op=ast.Not(), operand=self.visit(node))
+
+    def visit_UnaryOp(self, node):
+        if isinstance(node.op, ast.Not):
+            return self.neg(node.operand)
+        return self.generic_visit(node)
+
+    def visit_BoolOp(self, node):
+        vals = []
+        for v in node.values:
+            v = self.visit(v)
+            if isinstance(v, ast.BoolOp) and type(v.op) is type(node.op):
+                vals += v.values
+            else:
+                vals.append(v)
+        vals = sorted({ast.unparse(v): v for v in vals}.items())
+        if len(vals) == 1:
+            return vals[0][1]
+        return ast.BoolOp(op=node.op, values=[v for _, v in vals])
+
+    def visit_Compare(self, node):
+        node = self.generic_visit(node)
+        if len(node.ops) > 1:
+            parts, left = [], node.left
+            for op, right in zip(node.ops, node.comparators):
+                parts.append(ast.Compare(left=left, ops=[op], comparators=[right]))
+                left = right
+            return self.visit(ast.BoolOp(op=ast.And(), values=parts))
+        op, l, r = node.ops[0], node.left, node.comparators[0]
+        if type(op) in _MIRROR:
+            return ast.Compare(left=r, ops=[_MIRROR[type(op)]()], comparators=[l])
+        if isinstance(op, ast.Eq | ast.NotEq) and ast.unparse(r) < ast.unparse(l):
+            return ast.Compare(left=r, ops=[op], comparators=[l])
+        return node
+
+
+def ckey(node, ints=False):
+    if isinstance(node, str):
+        node = ast.parse(node, mode="eval").body
+    return ast.unparse(_Canon(ints).visit(copy.deepcopy(node)))
+
+
+def is_patvar(p):
+    """pattern variable of a `consts` key: a name `_X` (underscore + one letter)"""
+    return isinstance(p, ast.Name) and len(p.id) == 2 and p.id[0] == "_" and p.id[1].isalpha()
+
+
+def ast_match(p, n, cap=None):
+    """structural equality of two (canonicalised) ASTs; in the pattern `...` matches any subtree and a pattern variable
+    `_X` matches any subtree and captures it (a second occurrence must match the same subtree)"""
+    if isinstance(p, ast.Constant) and p.value is Ellipsis:
+        return True
+    if is_patvar(p) and isinstance(n, ast.AST):
+        if cap is None:
+            return True
+        if p.id in cap:
+            return ast.dump(cap[p.id]) == ast.dump(n)
+        cap[p.id] = n
+        return True
+    if type(p) is not type(n):
+        return False
+    if isinstance(p, ast.AST):
+        return all(ast_match(getattr(p, f, None), getattr(n, f, None), cap) for f in p._fields if f not in ("ctx", "kind", "type_comment"))
+    if isinstance(p, list):
+        return len(p) == len(n) and all(ast_match(a, b, cap) for a, b in zip(p, n))
+    return p == n
+
+
+def canon_ast(node, ints=False):
+    if isinstance(node, str):
+        node = ast.parse(node, mode="eval").body
+    return _Canon(ints).visit(copy.deepcopy(node))
+
+
+def test_matches(test, text):
+    """does the `if` test (an AST) mean what the descriptor's text says — `+` same polarity, `-` negated, None no"""
+    want = ast.parse(text, mode="eval").body
+    k = ckey(test, ints=True)
+    if k == ckey(want, ints=True):
+        return "+"
+    if k == ckey(ast.UnaryOp(op=ast.Not(), operand=want), ints=True):
+        return "-"
+    return None
+
+
+# ==================================================================================================
+# term language
+# ==================================================================================================
+# Int terms   ("lit", n) ("var", x) ("add", a, b) ("sub", a, b) ("mul", a, b) ("neg", a) ("fdiv", a, b) ("fmod", a, b)
+#             ("min", a, b) ("max", a, b) ("natabs", a) ("ite", C, a, b)
+# Option      ("none",) ("some", t) ("ovar", p) ("ite", C, o1, o2)
+# conditions  ("T",) ("F",) ("lt", a, b) ("eq", a, b) ("btrue", x) ("isnone", p) ("not", C) ("and", [C]) ("or", [C]) ("ite", C, c1, c2)
+# results     ("tup", [a, b, c]) ("unit",) ("bool", C) ("ok", X) ("err", cls) ("ite", C, r1, r2) and Int terms
+
+TRUE, FALSE = ("T",), ("F",)
+
+
+def mk_not(c):
+    if c == TRUE:
+        return FALSE
+    if c == FALSE:
+        return TRUE
+    if c[0] == "not":
+        return c[1]
+    return ("not", c)
+
+
+def mk_and(cs):
+    out = []
+    for c in cs:
+        if c == FALSE:
+            return FALSE
+        if c == TRUE:
+            continue
+        out += c[1] if c[0] == "and" else [c]
+    return TRUE if not out else out[0] if len(out) == 1 else ("and", out)
+
+
+def mk_or(cs):
+    out = []
+    for c in cs:
+        if c == TRUE:
+            return TRUE
+        if c == FALSE:
+            continue
+        out += c[1] if c[0] == "or" else [c]
+    return FALSE if not out else out[0] if len(out) == 1 else ("or", out)
+
+
+def mk_ite(c, a, b):
+    if c == TRUE:
+        return a
+    if c == FALSE:
+        return b
+    if a == b:
+        return a
+    return ("ite", c, a, b)
 
 
 class Tr:
     """translator for one fragment"""
 
-    def __init__(self, desc, src_func):
+    def __init__(self, desc, src_stmts):
         self.d = desc
-        self.bind = desc.get("bind", {})  # python expression text -> lean param name
-        self.consts = desc.get("consts", {})  # python expression text -> lean literal text (with type)
-        self.ret_kind = desc["ret"]  # 'int' | 'slice3' | 'unit' | 'self'
-        self.raises = any(isinstance(n, ast.Raise) for n in ast.walk(ast.Module(body=src_func, type_ignores=[])))
+        self.params = list(desc["params"])
+        self.bind = {ckey(k): v for k, v in desc.get("bind", {}).items()}  # canonical python expression text -> lean param name
+        self.consts = {ckey(k): v for k, v in desc.get("consts", {}).items()}  # canonical text -> python expression over the params
+        # keys with a `...` wildcard or pattern variables `_X` (matched structurally, the captures are substituted in the value)
+        self.patterns = [(canon_ast(k), ckey(k)) for k in desc.get("consts", {})
+                         if "..." in k or any(is_patvar(x) for x in ast.walk(ast.parse(k, mode="eval")))]
+        self.captured = {}
+        self.ret_kind = desc["ret"]  # 'int' | 'slice3' | 'unit' | 'bool'
+        self.raises = any(isinstance(n, ast.Raise) for n in ast.walk(ast.Module(body=src_stmts, type_ignores=[])))
+        self.penv = {}
+        for name, ty in self.params:
+            self.penv[name] = (ty, {INT: ("var", name), OPT: ("ovar", name), BOOL: ("bvar", name)}[ty])
 
     # ---------------------------------------------------------------- expressions
+    def const(self, k, env, at=None):
+        """the replacement of a pinned expression: a Python expression over the parameters, the locals in scope and the
+        subexpressions captured by the pattern variables of the key"""
+        v = self.consts[k]
+        if isinstance(v, tuple):
+            raise Refuse(f"descriptor: const for `{k}` must be a Python expression")
+        node = ast.parse(v, mode="eval").body
+        cap = self.captured.get(id(at), {})
+        if cap:
+            class S(ast.NodeTransformer):
+                def visit_Name(s, x):
+                    return copy.deepcopy(cap[x.id]) if x.id in cap else x
+            node = S().visit(node)
+        return Tr({"params": self.params, "ret": self.ret_kind}, []).expr(node, env)
+
     def key(self, node):
-        return ast.unparse(node)
+        k = ckey(node)
+        if k not in self.consts and self.patterns and isinstance(node, ast.Call):
+            cn = canon_ast(node)
+            for pat, pk in self.patterns:
+                cap = {}
+                if ast_match(pat, cn, cap):
+                    self.captured[id(node)] = cap
+                    return pk
+        return k
 
     def expr(self, node, env):
-        """returns (lean text, type)"""
+        """returns (type, term)"""
         k = self.key(node)
         if k in self.consts:
-            return self.consts[k]
+            return self.const(k, env, node)
         if k in self.bind:
             name = self.bind[k]
             if name not in env:
                 raise Refuse(f"bound name {name} not in scope")
-            return name, env[name]
+            return env[name]
         if isinstance(node, ast.Constant):
             if node.value is None:
-                return "none", NONE
+                return NONE, ("none",)
             if isinstance(node.value, bool):
-                return ("true" if node.value else "false"), BOOL
+                return PROP, (TRUE if node.value else FALSE)
             if isinstance(node.value, int):
-                return (f"({node.value} : Int)" if node.value >= 0 else f"(-{-node.value} : Int)"), INT
+                return INT, ("lit", node.value)
             if isinstance(node.value, str):
-                return '""', "Str"
+                return STR, None
             raise Refuse(f"constant {node.value!r}")
+        if isinstance(node, ast.JoinedStr):
+            return STR, None
         if isinstance(node, ast.Name):
             if node.id not in env:
                 raise Refuse(f"unknown name {node.id}")
-            t = env[node.id]
-            if t == NONE:
-                return "none", NONE
-            return self.lname(node.id), t
+            return env[node.id]
+        if isinstance(node, ast.Tuple) and len(node.elts) == 3:
+            parts = [self.int_of(e, env) for e in node.elts]
+            return T3, ("tup", parts)
         if isinstance(node, ast.UnaryOp):
             if isinstance(node.op, ast.USub):
-                a, t = self.expr(node.operand, env)
-                self.need(t, INT, node)
-                return f"(-{a})", INT
+                a = self.int_of(node.operand, env)
+                return INT, (("lit", -a[1]) if a[0] == "lit" else ("neg", a))
+            if isinstance(node.op, ast.UAdd):
+                return INT, self.int_of(node.operand, env)
             if isinstance(node.op, ast.Not):
-                return f"(¬ {self.cond(node.operand, env)})", "Prop"
+                return PROP, mk_not(self.cond(node.operand, env))
             raise Refuse(f"unary {ast.dump(node.op)}")
         if isinstance(node, ast.BinOp):
-            a, ta = self.expr(node.left, env)
-            b, tb = self.expr(node.right, env)
-            self.need(ta, INT, node.left)
-            self.need(tb, INT, node.right)
-            op = {ast.Add: "+", ast.Sub: "-", ast.Mult: "*"}.get(type(node.op))
-            if op:
-                return f"({a} {op} {b})", INT
-            if isinstance(node.op, ast.FloorDiv):
-                return f"(Int.fdiv {a} {b})", INT
-            if isinstance(node.op, ast.Mod):
-                return f"(Int.fmod {a} {b})", INT
-            raise Refuse(f"binop {ast.dump(node.op)}")
+            op = {ast.Add: "add", ast.Sub: "sub", ast.Mult: "mul", ast.FloorDiv: "fdiv", ast.Mod: "fmod"}.get(type(node.op))
+            if not op:
+                raise Refuse(f"binop {ast.dump(node.op)}")
+            return INT, (op, self.int_of(node.left, env), self.int_of(node.right, env))
         if isinstance(node, ast.IfExp):
-            # `a if v is not None else b` with flow typing
             return self.ifexp(node, env)
         if isinstance(node, ast.BoolOp) and isinstance(node.op, ast.Or) and len(node.values) == 2:
             # value-`or` on a possibly-None int: Python truthiness (None and 0 are falsy)
-            a, ta = self.expr(node.values[0], env)
+            ta, a = self.expr(node.values[0], env)
             if ta in (OPT, INT, NONE):
-                b, tb = self.expr(node.values[1], env)
-                self.need(tb, INT, node.values[1])
-                if ta == NONE:
-                    return b, INT
+                b = self.int_of(node.values[1], env)
                 if ta == INT:
-                    return f"(if {a} = 0 then {b} else {a})", INT
-                return f"(match {a} with | none => {b} | some v_ => if v_ = 0 then {b} else v_)", INT
+                    return INT, ("ite", ("eq", a, ("lit", 0)), b, a)
+                return INT, self.opt_case(a, lambda: b, lambda t: ("ite", ("eq", t, ("lit", 0)), b, t))
         if isinstance(node, ast.Call):
-            fn = self.key(node.func)
+            fn = ast.unparse(node.func)
             if fn in ("builtins.max", "builtins.min"):  # `import builtins` spelling of the same functions
                 fn = fn.split(".")[1]
-            if fn in ("max", "min") and len(node.args) == 2 and not node.keywords:
-                a, ta = self.expr(node.args[0], env)
-                b, tb = self.expr(node.args[1], env)
-                self.need(ta, INT, node)
-                self.need(tb, INT, node)
-                return f"({fn} {a} {b})", INT
-            if fn == "int" and len(node.args) == 1:
+            if fn in ("max", "min") and len(node.args) >= 2 and not node.keywords:
+                args = [self.int_of(a, env) for a in node.args]
+                t = args[0]
+                for a in args[1:]:
+                    t = (fn, t, a)
+                return INT, t
+            if fn == "int" and len(node.args) == 1 and not node.keywords:
                 return self.expr(node.args[0], env)
             if fn == "abs" and len(node.args) == 1:
-                a, ta = self.expr(node.args[0], env)
-                self.need(ta, INT, node)
-                return f"(({a}).natAbs : Int)", INT
+                return INT, ("natabs", self.int_of(node.args[0], env))
             if fn == "slice" and len(node.args) == 3:
-                parts = [self.expr(a, env) for a in node.args]
-                for (_, t), a in zip(parts, node.args):
-                    self.need(t, INT, a)
-                return "(" + ", ".join(p for p, _ in parts) + ")", "slice3"
+                return T3, ("tup", [self.int_of(a, env) for a in node.args])
             raise Refuse(f"call {fn}")
         if isinstance(node, ast.Compare | ast.BoolOp):
-            return self.cond(node, env), "Prop"
-        raise Refuse(f"expression {k}")
+            return PROP, self.cond(node, env)
+        raise Refuse(f"expression {ast.unparse(node)}")
 
-    def ifexp(self, node, env):
-        t = node.test
-        isn = self.is_none_test(t, env)
-        if isn:
-            var, positive = isn  # positive: `var is None`
-            vt = env[var]
-            none_e, some_e = (node.body, node.orelse) if positive else (node.orelse, node.body)
-            if vt == INT:
-                return self.expr(some_e, env)
-            if vt == NONE:
-                return self.expr(none_e, env)
-            e_none = dict(env); e_none[var] = NONE
-            e_some = dict(env); e_some[var] = INT
-            a, ta = self.expr(none_e, e_none)
-            b, tb = self.expr(some_e, e_some)
-            if ta != tb:
-                raise Refuse("ifexp branches differ in type")
-            ln = self.lname(var)
-            return f"(match {ln} with | none => {a} | some {ln} => {b})", ta
-        c = self.cond(t, env)
-        a, ta = self.expr(node.body, env)
-        b, tb = self.expr(node.orelse, env)
-        if (ta, tb) == (INT, NONE):  # `e if c else None`: an optional integer
-            return f"(if {c} then some {a} else none)", OPT
-        if (ta, tb) == (NONE, INT):
-            return f"(if {c} then none else some {b})", OPT
-        if ta != tb:
-            raise Refuse("ifexp branches differ in type")
-        return f"(if {c} then {a} else {b})", ta
+    def int_of(self, node, env):
+        t, a = self.expr(node, env)
+        if t != INT:
+            raise Refuse(f"{ast.unparse(node)} has type {t}, need {INT}")
+        return a
 
-    def need(self, t, want, node):
-        if t != want:
-            raise Refuse(f"{ast.unparse(node)} has type {t}, need {want}")
+    def opt_case(self, o, on_none, on_some):
+        """eliminate an optional value: distribute over the conditionals it is built from"""
+        if o[0] == "none":
+            return on_none()
+        if o[0] == "some":
+            return on_some(o[1])
+        if o[0] == "ovar":
+            return mk_ite(("isnone", o[1]), on_none(), on_some(("var", o[1])))
+        if o[0] == "ite":
+            return mk_ite(o[1], self.opt_case(o[2], on_none, on_some), self.opt_case(o[3], on_none, on_some))
+        raise Refuse(f"optional value {o}")
 
-    def lname(self, n):
-        return {"sorted": "sorted_", "end": "end_", "from": "from_", "at": "at_"}.get(n, n)
+    @staticmethod
+    def as_opt(t, a):
+        if t == INT:
+            return ("some", a)
+        if t in (NONE, OPT):
+            return a
+        raise Refuse(f"type {t} where an optional integer is needed")
+
+    def refine(self, env, o, value):
+        """flow typing: in this arm the optional value `o` is known to be `value` ((NONE, none) or (INT, t))"""
+        env = dict(env)
+        for n, (t, a) in list(env.items()):
+            if t == OPT and a == o:
+                env[n] = value
+        return env
+
+    def none_split(self, o_t, o, env, on_none, on_some, merge=mk_ite):
+        """the two arms of a None test on the value (o_t, o), each evaluated in the refined environment;
+        `merge(condition, arm, arm)` joins them (terms: mk_ite, typed values: self.merge)"""
+        if o_t == NONE:
+            return on_none(env)
+        if o_t == INT:
+            return on_some(env)
+        if o_t != OPT:
+            raise Refuse("None-test on a value that is not an optional integer")
+        none_v = (NONE, ("none",))
+
+        def go(v):
+            if v[0] == "none":
+                return on_none(self.refine(env, o, none_v))
+            if v[0] == "some":
+                return on_some(self.refine(env, o, (INT, v[1])))
+            if v[0] == "ovar":
+                some_v = (INT, ("var", v[1]))
+                return merge(("isnone", v[1]), on_none(self.refine(self.refine(env, o, none_v), v, none_v)),
+                             on_some(self.refine(self.refine(env, o, some_v), v, some_v)))
+            if v[0] == "ite":
+                return merge(v[1], go(v[2]), go(v[3]))
+            raise Refuse(f"optional value {v}")
+        return go(o)
 
     def is_none_test(self, t, env):
-        """`v is None` / `v is not None` on a variable (possibly through bind) -> (varname, positive)"""
+        """`v is None` / `v is not None` -> ((type, term) of v, positive)"""
         if isinstance(t, ast.Compare) and len(t.ops) == 1 and isinstance(t.ops[0], ast.Is | ast.IsNot):
             c = t.comparators[0]
             if isinstance(c, ast.Constant) and c.value is None:
-                k = self.key(t.left)
-                name = self.bind.get(k) or (t.left.id if isinstance(t.left, ast.Name) else None)
-                if name is None or name not in env:
-                    raise Refuse(f"None-test on {k}")
-                return name, isinstance(t.ops[0], ast.Is)
+                ty, a = self.expr(t.left, env)
+                if ty not in (OPT, INT, NONE):
+                    raise Refuse(f"None-test on {ast.unparse(t.left)}")
+                return (ty, a), isinstance(t.ops[0], ast.Is)
+        if isinstance(t, ast.UnaryOp) and isinstance(t.op, ast.Not):
+            r = self.is_none_test(t.operand, env)
+            if r:
+                return r[0], not r[1]
         return None
 
+    def ifexp(self, node, env):
+        isn = self.is_none_test(node.test, env)
+        if isn:
+            (ty, o), positive = isn
+            none_e, some_e = (node.body, node.orelse) if positive else (node.orelse, node.body)
+            return self.none_split(ty, o, env, lambda e: self.expr(none_e, e), lambda e: self.expr(some_e, e), self.merge)
+        c = self.cond(node.test, env)
+        return self.merge(c, self.expr(node.body, env), self.expr(node.orelse, env))
+
+    def merge(self, c, x, y):
+        """a two-armed typed value: the arms are brought to a common type (an int and a None make an optional int)"""
+        (ta, a), (tb, b) = x, y
+        if ta == tb and ta != OPT:
+            if ta in (STR, NONE):
+                return x
+            return ta, mk_ite(c, a, b)
+        if {ta, tb} <= {INT, NONE, OPT}:
+            return OPT, mk_ite(c, self.as_opt(ta, a), self.as_opt(tb, b))
+        raise Refuse("conditional expression whose arms differ in type")
+
     def cond(self, node, env):
-        """translate a Python truth-valued expression to a decidable Lean Prop"""
+        """translate a Python truth-valued expression to a condition"""
         k = self.key(node)
         if k in self.consts:
-            txt, t = self.consts[k]
-            return txt
+            t, a = self.const(k, env, node)
+            return self.truth(t, a, node)
         if isinstance(node, ast.BoolOp):
+            # a None-test among the operands refines the others (pure operands: the position does not matter)
+            for i, v in enumerate(node.values):
+                isn = self.is_none_test(v, env)
+                if isn and isn[0][0] == OPT:
+                    (ty, o), positive = isn
+                    rest = [w for j, w in enumerate(node.values) if j != i]
+                    rest_node = rest[0] if len(rest) == 1 else ast.BoolOp(op=node.op, values=rest)
+                    is_and = isinstance(node.op, ast.And)
+                    # and: (v is None) and R  -> none arm: R, some arm: False;   or: (v is None) or R -> none arm: True, some arm: R
+                    short = FALSE if is_and else TRUE
+                    if positive == is_and:
+                        return self.none_split(ty, o, env, lambda e: self.cond(rest_node, e), lambda e: short)
+                    return self.none_split(ty, o, env, lambda e: short, lambda e: self.cond(rest_node, e))
             parts = [self.cond(v, env) for v in node.values]
-            op = " ∧ " if isinstance(node.op, ast.And) else " ∨ "
-            return "(" + op.join(parts) + ")"
+            return mk_and(parts) if isinstance(node.op, ast.And) else mk_or(parts)
         if isinstance(node, ast.UnaryOp) and isinstance(node.op, ast.Not):
-            return f"(¬ {self.cond(node.operand, env)})"
+            return mk_not(self.cond(node.operand, env))
         if isinstance(node, ast.Compare):
             isn = self.is_none_test(node, env)
             if isn:
-                var, positive = isn
-                vt = env[var]
-                if vt == NONE:
-                    return "True" if positive else "False"
-                if vt == INT:
-                    return "False" if positive else "True"
-                return f"({self.lname(var)} = none)" if positive else f"({self.lname(var)} ≠ none)"
+                (ty, o), positive = isn
+                return self.none_split(ty, o, env, lambda e: TRUE if positive else FALSE, lambda e: FALSE if positive else TRUE)
             terms = [node.left, *node.comparators]
             if len(terms) == 2:
                 # `a OP b / c` with c a positive int literal (true division): translated as `a * c OP b`,
                 # exact over the integers (the float quotient is exact below 2**53)
                 l, r = terms
+
                 def _q(x):
                     return (isinstance(x, ast.BinOp) and isinstance(x.op, ast.Div) and isinstance(x.right, ast.Constant)
                             and type(x.right.value) is int and x.right.value > 0)
                 if _q(r) and not _q(l):
-                    c = ast.Constant(value=r.right.value)
-                    terms = [ast.BinOp(left=l, op=ast.Mult(), right=c), r.left]
+                    terms = [ast.BinOp(left=l, op=ast.Mult(), right=ast.Constant(value=r.right.value)), r.left]
                 elif _q(l) and not _q(r):
-                    c = ast.Constant(value=l.right.value)
-                    terms = [l.left, ast.BinOp(left=r, op=ast.Mult(), right=c)]
-            vals = []
-            for t in terms:
-                a, ta = self.expr(t, env)
-                self.need(ta, INT, t)
-                vals.append(a)
-            ops = {ast.Lt: "<", ast.LtE: "≤", ast.Gt: ">", ast.GtE: "≥", ast.Eq: "=", ast.NotEq: "≠"}
+                    terms = [l.left, ast.BinOp(left=r, op=ast.Mult(), right=ast.Constant(value=l.right.value))]
+            vals = [self.int_of(t, env) for t in terms]
             parts = []
             for i, op in enumerate(node.ops):
-                if type(op) not in ops:
+                a, b = vals[i], vals[i + 1]
+                c = {ast.Lt: lambda: ("lt", a, b), ast.Gt: lambda: ("lt", b, a),
+                     ast.LtE: lambda: mk_not(("lt", b, a)), ast.GtE: lambda: mk_not(("lt", a, b)),
+                     ast.Eq: lambda: ("eq", a, b), ast.NotEq: lambda: mk_not(("eq", a, b))}.get(type(op))
+                if c is None:
                     raise Refuse(f"comparison {ast.dump(op)}")
-                parts.append(f"{vals[i]} {ops[type(op)]} {vals[i + 1]}")
-            return "(" + " ∧ ".join(parts) + ")"
-        if isinstance(node, ast.Name) and env.get(node.id) == BOOL:
-            return f"({self.lname(node.id)} = true)"
+                parts.append(c())
+            return mk_and(parts)
         if isinstance(node, ast.Constant) and isinstance(node.value, bool):
-            return "True" if node.value else "False"
-        if isinstance(node, ast.Call | ast.Name | ast.Subscript | ast.Attribute | ast.BinOp):
-            # an integer used as a truth value (`if len(x):`): Python truthiness of int is `!= 0`
-            a, t = self.expr(node, env)
-            if t == INT:
-                return f"({a} ≠ (0 : Int))"
-        raise Refuse(f"condition {k}")
+            return TRUE if node.value else FALSE
+        if isinstance(node, ast.Call | ast.Name | ast.Subscript | ast.Attribute | ast.BinOp | ast.IfExp):
+            t, a = self.expr(node, env)
+            return self.truth(t, a, node)
+        raise Refuse(f"condition {ast.unparse(node)}")
+
+    def truth(self, t, a, node):
+        if t == PROP:
+            return a
+        if t == BOOL:
+            return ("btrue", a[1])
+        if t == INT:  # an integer used as a truth value (`if len(x):`): Python truthiness of int is `!= 0`
+            return mk_not(("eq", a, ("lit", 0)))
+        raise Refuse(f"{ast.unparse(node)} : {t} used as a condition")
 
     # ---------------------------------------------------------------- statements
-    def wrap(self, txt):
-        return f"(.ok {txt})" if self.raises else txt
+    def leaf(self, x):
+        return ("ok", x) if self.raises else x
 
-    def block(self, stmts, env, ind):
-        """translate a statement list to a Lean term of the function's return type"""
-        pad = "  " * ind
+    def block(self, stmts, env):
+        """translate a statement list to a term of the function's return type"""
         if not stmts:
             if self.ret_kind == "unit":
-                return pad + self.wrap("()")
+                return self.leaf(("unit",))
             raise Refuse("control reaches the end of the fragment without a return")
         s, rest = stmts[0], stmts[1:]
         if isinstance(s, ast.Expr) and isinstance(s.value, ast.Constant):
-            return self.block(rest, env, ind)  # docstring
+            return self.block(rest, env)  # docstring / string statement
         if isinstance(s, ast.Pass):
-            return self.block(rest, env, ind)
+            return self.block(rest, env)
         if isinstance(s, ast.Return):
             if s.value is None:
                 if self.ret_kind != "unit":
                     raise Refuse("bare return")
-                return pad + self.wrap("()")
-            a, t = self.expr(s.value, env)
-            want = {"int": INT, "slice3": "slice3", "bool": "Prop"}.get(self.ret_kind)
-            if self.ret_kind == "bool" and t == "Prop":
-                a = f"(decide {a})"
-            elif self.ret_kind == "slice3_from" and isinstance(s.value, ast.Name):
-                pass
-            elif want is None or t != want:
+                return self.leaf(("unit",))
+            t, a = self.expr(s.value, env)
+            if self.ret_kind == "bool":
+                a, t = ("bool", self.truth(t, a, s.value)), "bool"
+            want = {"int": INT, "slice3": T3, "bool": "bool"}.get(self.ret_kind)
+            if want is None or t != want:
                 raise Refuse(f"return {ast.unparse(s.value)} : {t}, fragment returns {self.ret_kind}")
-            return pad + self.wrap(a)
+            return self.leaf(a)
         if isinstance(s, ast.Raise):
             exc = s.exc
-            name = None
-            if isinstance(exc, ast.Call):
-                name = self.key(exc.func)
-            elif isinstance(exc, ast.Name):
-                name = exc.id
+            name = ast.unparse(exc.func) if isinstance(exc, ast.Call) else exc.id if isinstance(exc, ast.Name) else None
             if name not in ERRCLASS:
                 raise Refuse(f"raise {name}")
-            return pad + f"(.error Err.{ERRCLASS[name]})"
+            return ("err", ERRCLASS[name])
         if isinstance(s, ast.Assign):
-            if len(s.targets) > 1 and all(isinstance(t, ast.Name) for t in s.targets):
-                # a = b = e  (plain names): evaluate once, bind each name
-                first = ast.Assign(targets=[s.targets[0]], value=s.value)
-                more = [ast.Assign(targets=[t], value=ast.Name(id=s.targets[0].id, ctx=ast.Load())) for t in s.targets[1:]]
-                return self.block([first, *more, *rest], env, ind)
-            if len(s.targets) != 1:
-                raise Refuse("multiple assignment targets")
-            tgt = s.targets[0]
-            if isinstance(tgt, ast.Tuple) and isinstance(s.value, ast.Tuple) and len(tgt.elts) == len(s.value.elts):
-                # simultaneous assignment of independent values: a, b = e1, e2
-                vals = [self.expr(v, env) for v in s.value.elts]
-                env2 = dict(env)
-                lines = []
-                for i, ((a, t), nm) in enumerate(zip(vals, tgt.elts)):
-                    if not isinstance(nm, ast.Name):
-                        raise Refuse("tuple target")
-                    lines.append(f"{pad}let t{i}_ := {a}")
-                for i, ((a, t), nm) in enumerate(zip(vals, tgt.elts)):
-                    lines.append(f"{pad}let {self.lname(nm.id)} := t{i}_")
-                    env2[nm.id] = t
-                return "\n".join(lines) + "\n" + self.block(rest, env2, ind)
-            if not isinstance(tgt, ast.Name):
-                raise Refuse(f"assignment target {ast.unparse(tgt)}")
-            a, t = self.expr(s.value, env)
             env2 = dict(env)
-            if t == "Prop":
-                a, t = f"(decide {a})", BOOL
-            env2[tgt.id] = t
-            if t in (NONE, "Str"):
-                return self.block(rest, env2, ind)
-            lt = "Int × Int × Int" if t == "slice3" else t
-            return f"{pad}let {self.lname(tgt.id)} : {lt} := {a}\n" + self.block(rest, env2, ind)
+            if len(s.targets) == 1 and isinstance(s.targets[0], ast.Tuple):
+                tgt = s.targets[0]
+                if not (isinstance(s.value, ast.Tuple) and len(tgt.elts) == len(s.value.elts) and all(isinstance(n, ast.Name) for n in tgt.elts)):
+                    raise Refuse(f"assignment target {ast.unparse(tgt)}")
+                # simultaneous assignment: every value is read in the OLD environment
+                for nm, v in zip(tgt.elts, [self.expr(v, env) for v in s.value.elts]):
+                    env2[nm.id] = v
+            elif all(isinstance(t, ast.Name) for t in s.targets):
+                v = self.expr(s.value, env)  # a = b = e: one value, every name
+                for t in s.targets:
+                    env2[t.id] = v
+            else:
+                raise Refuse(f"assignment target {ast.unparse(s.targets[0])}")
+            return self.block(rest, env2)
         if isinstance(s, ast.AugAssign):
             if not isinstance(s.target, ast.Name):
                 raise Refuse("augassign target")
             node = ast.BinOp(left=ast.Name(id=s.target.id, ctx=ast.Load()), op=s.op, right=s.value)
-            return self.block([ast.Assign(targets=[s.target], value=node), *rest], env, ind)
+            return self.block([ast.Assign(targets=[s.target], value=node), *rest], env)
         if isinstance(s, ast.If):
-            if (isinstance(s.test, ast.BoolOp) and isinstance(s.test.op, ast.And) and len(s.test.values) >= 2
-                    and self.is_none_test(s.test.values[0], env)):
-                # `if v is [not] None and B: body else: orelse`  ==  `if v is [not] None: (if B: body else: orelse) else: orelse`
-                vals = s.test.values
-                inner_test = vals[1] if len(vals) == 2 else ast.BoolOp(op=ast.And(), values=vals[1:])
-                inner = ast.If(test=inner_test, body=s.body, orelse=s.orelse)
-                s = ast.If(test=vals[0], body=[inner], orelse=s.orelse)
-            isn = self.is_none_test(s.test, env)
+            test = s.test
+            body, orelse = s.body, s.orelse
+            # `if v is [not] None and B:`  ==  `if v is [not] None: (if B: body else: orelse) else: orelse`  (any position: pure operands)
+            if isinstance(test, ast.BoolOp) and isinstance(test.op, ast.And):
+                for i, v in enumerate(test.values):
+                    isn = self.is_none_test(v, env)
+                    if isn:
+                        others = [w for j, w in enumerate(test.values) if j != i]
+                        inner_test = others[0] if len(others) == 1 else ast.BoolOp(op=ast.And(), values=others)
+                        body, test = [ast.If(test=inner_test, body=s.body, orelse=s.orelse)], v
+                        break
+            isn = self.is_none_test(test, env)
             if isn:
-                var, positive = isn
-                vt = env[var]
-                none_b, some_b = (s.body, s.orelse) if positive else (s.orelse, s.body)
-                if vt == INT:
-                    return self.block([*some_b, *rest], env, ind)
-                if vt == NONE:
-                    return self.block([*none_b, *rest], env, ind)
-                e_none = dict(env); e_none[var] = NONE
-                e_some = dict(env); e_some[var] = INT
-                ln = self.lname(var)
-                return (f"{pad}match {ln} with\n{pad}| none =>\n" + self.block([*none_b, *rest], e_none, ind + 2)
-                        + f"\n{pad}| some {ln} =>\n" + self.block([*some_b, *rest], e_some, ind + 2))
-            c = self.cond(s.test, env)
-            return (f"{pad}if {c} then\n" + self.block([*s.body, *rest], env, ind + 1)
-                    + f"\n{pad}else\n" + self.block([*s.orelse, *rest], env, ind + 1))
+                (ty, o), positive = isn
+                none_b, some_b = (body, orelse) if positive else (orelse, body)
+                return self.none_split(ty, o, env, lambda e: self.block([*none_b, *rest], e), lambda e: self.block([*some_b, *rest], e))
+            c = self.cond(test, env)
+            if c == TRUE:  # decided by flow typing / a constant: the other arm is dead code and is not looked at
+                return self.block([*body, *rest], env)
+            if c == FALSE:
+                return self.block([*orelse, *rest], env)
+            return mk_ite(c, self.block([*body, *rest], env), self.block([*orelse, *rest], env))
         raise Refuse(f"statement {type(s).__name__}: {ast.unparse(s)[:60]}")
 
+
+# ==================================================================================================
+# normal form
+# ==================================================================================================
+
+COMM = ("add", "mul", "min", "max")
+
+
+def term_key(t):
+    """order of commuting operands: literals last, then by size and text"""
+    txt = pp_term(t)
+    return (t[0] == "lit", len(txt), txt)
+
+
+def canon_term(t):
+    """ite-free Int term: operands of +, *, min, max flattened and ordered"""
+    k = t[0]
+    if k in ("lit", "var"):
+        return t
+    if k in COMM:
+        ops = []
+
+        def flat(x):
+            if x[0] == k:
+                flat(x[1]); flat(x[2])
+            else:
+                ops.append(canon_term(x))
+        flat(t)
+        ops.sort(key=term_key)
+        if k in ("min", "max"):  # idempotent: a repeated operand adds nothing
+            ops = [o for i, o in enumerate(ops) if o not in ops[:i]]
+        r = ops[0]
+        for o in ops[1:]:
+            r = (k, r, o)
+        return r
+    if k in ("sub", "fdiv", "fmod"):
+        return (k, canon_term(t[1]), canon_term(t[2]))
+    if k == "neg":
+        a = canon_term(t[1])
+        return ("lit", -a[1]) if a[0] == "lit" else ("neg", a)
+    if k == "natabs":
+        return (k, canon_term(t[1]))
+    raise Refuse(f"term {t}")
+
+
+def lift(t):
+    """Int term -> list of (condition, ite-free term) alternatives as a decision term: returns a term whose ites are all on top"""
+    k = t[0]
+    if k in ("lit", "var"):
+        return t
+    if k == "ite":
+        return ("ite", t[1], lift(t[2]), lift(t[3]))
+    if k in ("neg", "natabs"):
+        return map_leaves(lift(t[1]), lambda a: (k, a))
+    if k in ("add", "sub", "mul", "fdiv", "fmod", "min", "max"):
+        a, b = lift(t[1]), lift(t[2])
+        return map_leaves(a, lambda x: map_leaves(b, lambda y: (k, x, y)))
+    raise Refuse(f"term {t}")
+
+
+def map_leaves(t, f):
+    if t[0] == "ite":
+        return ("ite", t[1], map_leaves(t[2], f), map_leaves(t[3], f))
+    return f(t)
+
+
+def lift_result(r):
+    k = r[0]
+    if k == "ite":
+        return ("ite", r[1], lift_result(r[2]), lift_result(r[3]))
+    if k == "ok":
+        return map_leaves(lift_result(r[1]), lambda x: ("ok", x))
+    if k in ("err", "unit"):
+        return r
+    if k == "bool":
+        return ("ite", r[1], ("blit", True), ("blit", False))
+    if k == "tup":
+        def go(i, acc):
+            if i == len(r[1]):
+                return ("tup", list(acc))
+            return map_leaves(lift(r[1][i]), lambda x: go(i + 1, acc + [x]))
+        return go(0, [])
+    return lift(r)
+
+
+def lift_cond(c):
+    """conditions whose comparison operands contain conditionals: the conditional moves to the condition level"""
+    k = c[0]
+    if k in ("T", "F", "btrue", "isnone"):
+        return c
+    if k in ("lt", "eq"):
+        a, b = lift(c[1]), lift(c[2])
+
+        def go(x):
+            if x[0] == "ite":
+                return ("ite", lift_cond(x[1]), go(x[2]), go(x[3]))
+            return x
+        return go(map_leaves(a, lambda x: map_leaves(b, lambda y: ("atom", k, x, y))))
+    if k == "not":
+        return ("not", lift_cond(c[1]))
+    if k in ("and", "or"):
+        return (k, [lift_cond(x) for x in c[1]])
+    if k == "ite":
+        return ("ite", lift_cond(c[1]), lift_cond(c[2]), lift_cond(c[3]))
+    raise Refuse(f"condition {c}")
+
+
+def canon_atom(c):
+    """("atom", "lt"|"eq", a, b) with ite-free operands -> canonical atom (or a constant for literal comparisons)"""
+    _, k, a, b = c
+    a, b = canon_term(a), canon_term(b)
+    if a[0] == "lit" and b[0] == "lit":
+        return TRUE if (a[1] < b[1] if k == "lt" else a[1] == b[1]) else FALSE
+    if k == "eq":
+        if a == b:
+            return TRUE
+        if term_key(b) < term_key(a):
+            a, b = b, a
+    elif a == b:
+        return FALSE
+    return (k, a, b)
+
+
+def ev(c, asg):
+    """three-valued evaluation of a (lifted) condition under a partial assignment of atoms"""
+    k = c[0]
+    if k == "T":
+        return True
+    if k == "F":
+        return False
+    if k == "atom":
+        c = canon_atom(c)
+        if c in (TRUE, FALSE):
+            return c == TRUE
+        k = c[0]
+    if k in ("lt", "eq", "btrue", "isnone"):
+        return asg.get(c)
+    if k == "not":
+        v = ev(c[1], asg)
+        return None if v is None else not v
+    if k in ("and", "or"):
+        unit = k == "and"
+        res = unit
+        for x in c[1]:
+            v = ev(x, asg)
+            if v is (not unit):
+                return not unit
+            if v is None:
+                res = None
+        return res
+    if k == "ite":
+        v = ev(c[1], asg)
+        if v is True:
+            return ev(c[2], asg)
+        if v is False:
+            return ev(c[3], asg)
+        a, b = ev(c[2], asg), ev(c[3], asg)
+        return a if (a == b and a is not None) else None
+    raise Refuse(f"condition {c}")
+
+
+def atoms_of(c, asg, out):
+    """every undecided atom of the condition (independent of evaluation order)"""
+    k = c[0]
+    if k == "atom":
+        c = canon_atom(c)
+        k = c[0]
+    if k in ("lt", "eq", "btrue", "isnone"):
+        if c not in asg:
+            out.add(c)
+    elif k == "not":
+        atoms_of(c[1], asg, out)
+    elif k in ("and", "or"):
+        for x in c[1]:
+            atoms_of(x, asg, out)
+    elif k == "ite":
+        for x in c[1:]:
+            atoms_of(x, asg, out)
+
+
+class Norm:
+    """one decision tree over the atoms, tested in a fixed order:
+      1. `p is None` for the parameters that may be None, in parameter order (so every `match` sits on top);
+      2. the other atoms in the order of the TEST of the source they first occur in (pre-order: test, then-arm, else-arm),
+         and inside one test by (length, text).
+    Inside a test the order is canonical (and/or commuted, De Morgan, chained comparisons, negation, exchanged arms all
+    disappear); between tests the order of the source is kept — ordering ALL atoms by text would also identify exchanged
+    independent statements, but it scatters the guards of a chain of checks over the tree (the tree of `GCXS.__init__`
+    grows from 30 to 375 tests, most of them on infeasible paths)."""
+    LIMIT = 6000
+
+    def __init__(self, params, root):
+        self.order = {n: i for i, (n, _) in enumerate(params)}
+        self.nodes = 0
+        self.first = {}
+        self.index(root)
+
+    def index(self, r):
+        n = 0
+        stack = [r]
+        while stack:
+            r = stack.pop()
+            if r[0] != "ite":
+                continue
+            out = set()
+            atoms_of(r[1], {}, out)
+            for a in out:
+                self.first.setdefault(a, n)
+            n += 1
+            stack.append(r[3])
+            stack.append(r[2])
+
+    def akey(self, a):
+        if a[0] == "isnone":
+            return (0, self.order.get(a[1], 99), 0, a[1])
+        txt = pp_atom(a)
+        return (1, self.first[a], len(txt), txt)
+
+    def reach(self, r, asg, out):
+        """atoms of the tests that are still reachable under the assignment"""
+        while r[0] == "ite":
+            v = ev(r[1], asg)
+            if v is True:
+                r = r[2]
+            elif v is False:
+                r = r[3]
+            else:
+                atoms_of(r[1], asg, out)
+                self.reach(r[2], asg, out)
+                r = r[3]
+        return r
+
+    def build(self, r, asg):
+        self.nodes += 1
+        if self.nodes > self.LIMIT:
+            raise Refuse("normal form too large")
+        atoms = set()
+        leaf = self.reach(r, asg, atoms)
+        if not atoms:
+            return canon_leaf(leaf)
+        a = min(atoms, key=self.akey)
+        hi = self.build(r, {**asg, a: True})
+        lo = self.build(r, {**asg, a: False})
+        return hi if hi == lo else ("ite", a, hi, lo)
+
+
+def canon_leaf(x):
+    k = x[0]
+    if k == "ok":
+        return ("ok", canon_leaf(x[1]))
+    if k in ("err", "unit", "blit"):
+        return x
+    if k == "tup":
+        return ("tup", [canon_term(e) for e in x[1]])
+    return canon_term(x)
+
+
+def lift_tests(r):
+    if r[0] == "ite":
+        return ("ite", lift_cond(r[1]), lift_tests(r[2]), lift_tests(r[3]))
+    return r
+
+
+def normalise(r, params):
+    root = lift_tests(lift_result(r))
+    return Norm(params, root).build(root, {})
+
+
+# ==================================================================================================
+# printing
+# ==================================================================================================
+
+LEAN_KEYWORDS = {"sorted": "sorted_", "end": "end_", "from": "from_", "at": "at_", "in": "in_", "then": "then_", "fun": "fun_", "do": "do_"}
+
+
+def lname(n):
+    return LEAN_KEYWORDS.get(n, n)
+
+
+def pp_term(t):
+    k = t[0]
+    if k == "lit":
+        return f"({t[1]} : Int)" if t[1] >= 0 else f"(-{-t[1]} : Int)"
+    if k == "var":
+        return lname(t[1])
+    if k in ("add", "sub", "mul"):
+        return f"({pp_term(t[1])} {'+-*'['add sub mul'.split().index(k)]} {pp_term(t[2])})"
+    if k == "neg":
+        return f"(-{pp_term(t[1])})"
+    if k in ("fdiv", "fmod"):
+        return f"(Int.{k} {pp_term(t[1])} {pp_term(t[2])})"
+    if k in ("min", "max"):
+        return f"({k} {pp_term(t[1])} {pp_term(t[2])})"
+    if k == "natabs":
+        return f"(({pp_term(t[1])}).natAbs : Int)"
+    raise Refuse(f"term {t}")
+
+
+def pp_atom(a):
+    if a[0] == "lt":
+        return f"{pp_term(a[1])} < {pp_term(a[2])}"
+    if a[0] == "eq":
+        return f"{pp_term(a[1])} = {pp_term(a[2])}"
+    if a[0] == "btrue":
+        return f"{lname(a[1])} = true"
+    raise Refuse(f"atom {a}")
+
+
+def pp_leaf(x):
+    k = x[0]
+    if k == "ok":
+        return f"(.ok {pp_leaf(x[1])})"
+    if k == "err":
+        return f"(.error Err.{x[1]})"
+    if k == "unit":
+        return "()"
+    if k == "blit":
+        return "true" if x[1] else "false"
+    if k == "tup":
+        return "(" + ", ".join(pp_term(e) for e in x[1]) + ")"
+    return pp_term(x)
+
+
+def pp_tree(r, ind):
+    pad = "  " * ind
+    if r[0] != "ite":
+        return pad + pp_leaf(r)
+    a = r[1]
+    if a[0] == "isnone":
+        n = lname(a[1])
+        return (f"{pad}match {n} with\n{pad}| none =>\n{pp_tree(r[2], ind + 2)}\n{pad}| some {n} =>\n{pp_tree(r[3], ind + 2)}")
+    return f"{pad}if {pp_atom(a)} then\n{pp_tree(r[2], ind + 1)}\n{pad}else\n{pp_tree(r[3], ind + 1)}"
+
+
+# ==================================================================================================
+# selecting the fragment
+# ==================================================================================================
 
 def find_func(tree, qual):
     parts = qual.split(".")
@@ -366,6 +956,21 @@ def find_func(tree, qual):
     return node
 
 
+def stmt_matches(stmt, anchor):
+    """anchor: `if <test>` (meaning compared, either polarity is NOT accepted here), or the beginning of the statement's text;
+    a tuple of anchors = any of them"""
+    if isinstance(anchor, tuple | list):
+        return any(stmt_matches(stmt, a) for a in anchor)
+    if anchor.startswith("if "):
+        return isinstance(stmt, ast.If) and test_matches(stmt.test, anchor[3:]) == "+"
+    return ast.unparse(stmt).startswith(anchor)
+
+
+def is_guard(stmt):
+    """`if <test>: raise ...` without else"""
+    return isinstance(stmt, ast.If) and not stmt.orelse and len(stmt.body) == 1 and isinstance(stmt.body[0], ast.Raise)
+
+
 def select(func, sel):
     """pick the statement list of a fragment"""
     body = [s for s in func.body if not (isinstance(s, ast.Expr) and isinstance(s.value, ast.Constant))]
@@ -375,87 +980,137 @@ def select(func, sel):
     if kind == "after_guard":
         # drop a leading `if <guard>: return <x>`
         g = body[0]
-        if not (isinstance(g, ast.If) and ast.unparse(g.test) == sel[1] and not g.orelse and len(g.body) == 1 and isinstance(g.body[0], ast.Return)):
+        if not (isinstance(g, ast.If) and test_matches(g.test, sel[1]) == "+" and not g.orelse and len(g.body) == 1 and isinstance(g.body[0], ast.Return)):
             raise Refuse(f"guard `{sel[1]}` not found at the top of {func.name}")
         return body[1:]
-    if kind == "if_body":
-        # body of the (top-level or elif-chained) `if <test>:` anywhere in the function
+    if kind in ("if_body", "orelse_of"):
+        # the arm taken when <test> holds (if_body) / does not hold (orelse_of), of the `if` anywhere in the function
+        # (top-level or elif-chained) whose test means <test> or its negation
         for n in ast.walk(func):
-            if isinstance(n, ast.If) and ast.unparse(n.test) == sel[1]:
-                return n.body
+            if isinstance(n, ast.If):
+                m = test_matches(n.test, sel[1])
+                if m:
+                    arm = n.body if (m == "+") == (kind == "if_body") else n.orelse
+                    if not arm:
+                        raise Refuse(f"the `if` on `{sel[1]}` in {func.name} has no such arm")
+                    return arm
         raise Refuse(f"branch `{sel[1]}` not found in {func.name}")
     if kind == "if_else":
         # the whole if/else statement whose test is given (kept as one statement) + optional trailing statements
         for n in ast.walk(func):
-            if isinstance(n, ast.If) and ast.unparse(n.test) == sel[1]:
+            if isinstance(n, ast.If) and test_matches(n.test, sel[1]):
                 tail = [ast.parse(sel[2]).body[0]] if len(sel) > 2 else []
                 return [n, *tail]
         raise Refuse(f"statement `if {sel[1]}` not found in {func.name}")
-    if kind == "elif_chain_from":
-        # the if/elif chain starting at the `elif <test>` (used for check_index's integer branch)
-        for n in ast.walk(func):
-            if isinstance(n, ast.If) and ast.unparse(n.test) == sel[1]:
-                return [n]
-        raise Refuse(f"branch `{sel[1]}` not found in {func.name}")
-    if kind == "between":
-        # top-level statements from the n-th one whose text starts with sel[1] up to (excluding) the next one
-        # whose text starts with sel[2]
+    if kind in ("between", "guards_from"):
+        # top-level statements from the n-th one matching sel[1] up to (excluding) the next one matching sel[2]
+        # (guards_from: up to the first statement that is not an `if …: raise` guard)
         nth = sel[3] if len(sel) > 3 else 0
-        starts = [i for i, n in enumerate(body) if ast.unparse(n).startswith(sel[1])]
+        starts = [i for i, n in enumerate(body) if stmt_matches(n, sel[1])]
         if len(starts) <= nth:
             raise Refuse(f"statement `{sel[1]}` (occurrence {nth}) not found in {func.name}")
         i0 = starts[nth]
+        if kind == "guards_from":
+            i1 = i0
+            while i1 < len(body) and is_guard(body[i1]):
+                i1 += 1
+            return body[i0:i1]
         for i1 in range(i0 + 1, len(body)):
-            if ast.unparse(body[i1]).startswith(sel[2]):
+            if stmt_matches(body[i1], sel[2]):
                 return body[i0:i1]
         raise Refuse(f"statement `{sel[2]}` not found after `{sel[1]}` in {func.name}")
+    if kind == "after":
+        # the top-level statements that FOLLOW the first one matching sel[1], up to (excluding) the next one matching sel[2]
+        for i0, n in enumerate(body):
+            if stmt_matches(n, sel[1]):
+                for i1 in range(i0 + 1, len(body)):
+                    if stmt_matches(body[i1], sel[2]):
+                        return body[i0 + 1:i1]
+                raise Refuse(f"statement `{sel[2]}` not found after `{sel[1]}` in {func.name}")
+        raise Refuse(f"statement `{sel[1]}` not found in {func.name}")
     raise Refuse(f"selector {sel}")
 
 
+def rename_targets(comp, params, n):
+    """the comprehension's bound variables renamed, by position, to the first n parameter names of the descriptor"""
+    g = comp.generators[0]
+    tg = g.target.elts if isinstance(g.target, ast.Tuple) else [g.target]
+    if len(tg) != n or not all(isinstance(t, ast.Name) for t in tg):
+        return None
+    ren = {t.id: p for t, (p, _) in zip(tg, params)}
+    if len(set(ren)) != n:
+        return None
+    free = {x.id for x in ast.walk(comp.elt) if isinstance(x, ast.Name)} - set(ren)
+    if free & set(ren.values()):
+        return None  # a free variable of the element carries the name a bound one would get
+
+    class R(ast.NodeTransformer):
+        def visit_Name(s, x):
+            return ast.copy_location(ast.Name(id=ren.get(x.id, x.id), ctx=x.ctx), x)
+    return R().visit(copy.deepcopy(comp.elt))
+
+
+def emit(desc, params, body_term, ret):
+    tree = normalise(body_term, params)
+    ps = " ".join(f"({lname(k)} : {v})" for k, v in params)
+    return f"def {desc['name']} {ps} : {ret} :=\n{pp_tree(tree, 1)}\n"
+
+
 def gen_elt(desc, tree):
-    """comprehension element: check the iteration structure literally, translate the element"""
+    """comprehension element: the iteration structure is checked (`iter` text, number of bound variables, the call the
+    comprehension is the sole argument of), the bound variables are renamed by position, the element is translated"""
     func = find_func(tree, desc["func"])
-    # optional `within`: the comprehension must be the sole argument of a call to that function (e.g. "all")
     within = desc.get("within")
-    sole_args = {id(c.args[0]) for c in ast.walk(func)
+    sole_args = {id(c.args[0]): False for c in ast.walk(func)
                  if isinstance(c, ast.Call) and len(c.args) == 1 and not c.keywords and ast.unparse(c.func) == within}
+    if within == "all":
+        # the same guard spelled with the dual quantifier: `if any(Q for …): raise` says `if not all(not Q for …): raise`;
+        # accepted only where the call IS the test of an `if …: raise` guard, and the element is then read negated
+        for g in ast.walk(func):
+            if is_guard(g) and isinstance(g.test, ast.Call) and ast.unparse(g.test.func) == "any" and len(g.test.args) == 1 and not g.test.keywords:
+                sole_args[id(g.test.args[0])] = True
+    nbound = desc.get("bound", len(ast.parse(desc["target"], mode="eval").body.elts) if desc["target"].startswith("(") else 1)
     for n in ast.walk(func):
         if isinstance(n, ast.GeneratorExp | ast.ListComp) and len(n.generators) == 1:
             if within is not None and id(n) not in sole_args:
                 continue
             g = n.generators[0]
-            if ast.unparse(g.iter) == desc["iter"] and ast.unparse(g.target) == desc["target"] and not g.ifs:
-                # the context the comprehension sits in must be the expected one
-                tr = Tr({"bind": {}, "consts": desc.get("consts", {}), "ret": desc["ret"]}, [])
-                env = dict(desc["params"])
-                a, t = tr.expr(n.elt, env)
+            if ast.unparse(g.iter) == desc["iter"] and not g.ifs:
+                elt = rename_targets(n, desc["params"], nbound)
+                if elt is None:
+                    continue
+                if within is not None and sole_args[id(n)]:
+                    elt = ast.UnaryOp(op=ast.Not(), operand=elt)
+                tr = Tr({"bind": {}, "consts": desc.get("consts", {}), "ret": desc["ret"], "params": desc["params"]}, [])
+                t, a = tr.expr(elt, dict(tr.penv))
                 if desc["ret"] == "bool":
-                    if t != "Prop":
-                        raise Refuse("element is not a condition")
-                    a, rt = f"decide {a}", "Bool"
-                else:
-                    tr.need(t, INT, n.elt)
-                    rt = "Int"
-                ps = " ".join(f"({tr.lname(k)} : {v})" for k, v in desc["params"])
-                return f"def {desc['name']} {ps} : {rt} :=\n  {a}\n"
-    raise Refuse(f"comprehension over `{desc['iter']}` not found in {desc['func']}")
+                    return emit(desc, desc["params"], ("bool", tr.truth(t, a, elt)), "Bool")
+                if t != INT:
+                    raise Refuse(f"element has type {t}, need {INT}")
+                return emit(desc, desc["params"], a, "Int")
+    raise Refuse(f"comprehension over `{desc['iter']}`" + (f" inside {within}(...)" if within else "") + f" not found in {desc['func']}")
 
 
 def gen_fragment(desc, tree):
     func = find_func(tree, desc["func"])
     stmts = select(func, desc.get("select"))
+    if "until" in desc:
+        for i, s in enumerate(stmts):
+            if stmt_matches(s, desc["until"]):
+                stmts = stmts[:i]
+                break
+        else:
+            raise Refuse(f"statement `{desc['until']}` not found in the selected part of {desc['func']}")
     if "take" in desc:
         stmts = stmts[: desc["take"]]
     if "tail" in desc:
         stmts = [*stmts, *ast.parse(desc["tail"]).body]
     tr = Tr(desc, stmts)
-    env = dict(desc["params"])
-    body = tr.block(stmts, env, 1)
+    body = tr.block(stmts, dict(tr.penv))
     rt = {"int": "Int", "slice3": "Int × Int × Int", "unit": "Unit", "bool": "Bool"}[desc["ret"]]
     if tr.raises:
         rt = f"Except Err ({rt})" if "×" in rt else f"Except Err {rt}"
-    ps = " ".join(f"({tr.lname(k)} : {v})" for k, v in desc["params"])
-    return f"def {desc['name']} {ps} : {rt} :=\n{body}\n"
+    return emit(desc, desc["params"], body, rt)
 
 
 def main():
@@ -488,6 +1143,8 @@ def main():
             except Refuse as e:
                 refused.append(f"{desc['name']}: {e}")
                 # emit nothing for this target: dependants will fail to build, which is the point
+            except RecursionError:
+                refused.append(f"{desc['name']}: fragment too deeply nested")
         chunks.append("end SparseV.Gen\n")
         texts[f"{modname}.lean"] = "\n".join(chunks)
     for fname, (txt, names, ref) in py2lean_tables.generate(repo).items():
